@@ -5,7 +5,7 @@ import time
 
 import pandas as pd
 
-from qsmon import core, pcmwl, sesswl
+from qsmon import core, market, pcmwl, sesswl
 from qsmon.props import _common
 
 PROP = 'C19'
@@ -129,7 +129,27 @@ def run_shard(spec, acc):
             acc.nontriv(PROP, 'pcm', str(case['static_universe']), str(case['seed_holdings']), case['cash'])
             continue
         cfg = sesswl.gen_cfg(rng, alpha_kinds=('single',), universe_kinds=('dynamic',),
-                             max_days=60 if spec['tier'] == 'quick' else 200, n_assets=rng.randint(2, 6))
+                             max_days=60 if spec['tier'] == 'quick' else 200, n_assets=rng.randint(2, 6), plain_date_end=True)
+        if i % 6 == 2:
+            # plain dates for start and end, the session's own default data handler, and one asset entering on the last
+            # simulated day (whose close is later than the end timestamp itself)
+            old_start = cfg['start']
+            cfg['start'] = old_start[:10] + ' 00:00:00+00:00'
+            cfg['end'] = cfg['end'][:10] + ' 00:00:00+00:00'
+            cfg['rebalance'] = 'daily'
+            cfg.pop('weekday', None)
+            dates = {a: (cfg['start'] if d == old_start else d) for a, d in cfg['universe']['dates'].items()}
+            last = [x for x in market.bdays(dt.date.fromisoformat(cfg['start'][:10]), dt.date.fromisoformat(cfg['end'][:10]))][-1]
+            names = sorted(dates)
+            dates[names[-1]] = '%s %s+00:00' % (last.isoformat(), rng.choice(['14:30:00', '21:00:00', '00:00:00', '09:00:00']))
+            if all(d is None or d > cfg['start'] for d in [dates[a] for a in names[:-1]]):
+                dates[names[0]] = cfg['start']
+            cfg['universe'] = {'kind': 'dynamic', 'dates': dates}
+            cfg['default_handler'] = True
+            cfg['market']['adjust'] = True
+            cfg['market'].pop('late', None)
+            cfg.pop('market2', None)
+            acc.count('C19:sessions_with_plain_dates_and_an_entry_on_the_last_day')
         if i % 3 == 1:
             # the universe object first serves a session whose alpha model uses a Signal built on it (signals keep and
             # extend the list the universe gave them), then the session under test
